@@ -10,6 +10,10 @@
      {"op":"conc","obj":"front|proc","progs":[[item,…],…],"sched":[tid | ["ver",f,v] | ["deny",f,b], …]}
      items: ["call",f] | ["acquire"] | ["exit"]
    answer {"model":{"steps":[…],"rets":[…]}, "spec":{…}}
+
+   Concurrent line, two cache levels (stateless; model Conc2 with the generated `ccfg2`):
+     {"op":"conc2","progs":[[item,…],…],"sched":[…as above, f = source index…]}
+     items: ["call", ff|null, g] (front-end memo function number or null, source number) | ["acquire"] | ["exit"]
 -/
 import PsutilModel.Base.Proto
 import PsutilModel.Model.C16Gen
@@ -218,12 +222,115 @@ def handleConc (j : Json) : R Json := do
               ("spec", jObj [("interval", Json.bool r.allInterval), ("literal", Json.bool r.allLiteral),
                              ("spurious", Json.bool r.spurious)])])
 
+/- ---------------------------------------------------------------- concurrent, two cache levels -/
+open Conc2 in
+def ph2Name : Conc2.Phase → String
+  | .test => "test" | .act (.front :: _) => "actF" | .act (.proc :: _) => "actP" | .act [] => "act0"
+  | .deact (.front :: _) => "delF" | .deact (.proc :: _) => "delP" | .deact [] => "del0"
+  | .release => "release" | .out => "out" | .inBlock => "inBlock" | .inNoop => "inNoop" | .oerr => "oerr"
+
+open Conc2 in
+def pc2Name : Conc2.PC → String
+  | .idle => "idle" | .f0 .. => "f0" | .f1 .. => "f1" | .p0 .. => "p0" | .p1 .. => "p1" | .p2 .. => "p2"
+  | .p4 .. => "p4" | .f4 .. => "f4" | .ret .. => "ret" | .retErr .. => "retErr"
+
+inductive Item2 | call (ff : Option Nat) (g : Nat) | acquire | exit
+
+def parseItem2 (j : Json) : R Item2 :=
+  match j.getArr? with
+  | .ok #[k] => do
+    let k ← asStr k
+    if k == "acquire" then pure .acquire else if k == "exit" then pure .exit else .error s!"bad item {k}"
+  | .ok #[k, ff, g] => do
+    let k ← asStr k
+    if k != "call" then .error s!"bad item {k}"
+    let g ← asNat g
+    if ff.isNull then return .call none g else return .call (some (← asNat ff)) g
+  | _ => .error "bad item"
+
+structure CRun2 where
+  s : Conc2.St
+  progs : List (List Item2)
+  steps : List Json
+  rets : List Json
+  allInterval : Bool
+  allLiteral : Bool
+  spurious : Bool
+
+def popProg2 (progs : List (List Item2)) (t : Nat) : Option (Item2 × List (List Item2)) :=
+  match progs[t]? with
+  | some (it :: rest) => some (it, progs.set t rest)
+  | _ => none
+
+open Conc2 in
+def concStep2 (c : CCfg2) (r : CRun2) : SchedEl → CRun2
+  | .ver f v =>
+    match Conc2.step c r.s (.setVer f v) with
+    | some s' => { r with s := s', steps := jObj [("k", "ver")] :: r.steps }
+    | none => r
+  | .deny f b =>
+    match Conc2.step c r.s (.setDenied f b) with
+    | some s' => { r with s := s', steps := jObj [("k", "deny")] :: r.steps }
+    | none => r
+  | .tid t =>
+    let th := r.s.thr t
+    let (choice, progs', what) : Option Choice × List (List Item2) × String :=
+      if th.ph = .oerr then (none, r.progs, "err")
+      else if th.pc = .idle && callable th.ph then
+        match popProg2 r.progs t with
+        | some (.call ff g, p') => (some (.call ff g), p', "call")
+        | some (.acquire, p') => (some .acquire, p', "acquire")
+        | some (.exit, p') => (some .beginExit, p', "exit")
+        | none => (none, r.progs, "done")
+      else (some .step, r.progs, if th.pc = .idle then ph2Name th.ph else pc2Name th.pc)
+    let disabled := { r with steps := jObj [("k", "thr"), ("tid", jNat t), ("pc", Json.str what), ("en", Json.bool false)] :: r.steps }
+    match choice with
+    | none => disabled
+    | some ch =>
+      match Conc2.step c r.s (.thr t ch) with
+      | none => disabled
+      | some s' =>
+        let stepJ := jObj [("k", "thr"), ("tid", jNat t), ("pc", Json.str what), ("en", Json.bool true)]
+        let r1 := { r with s := s', progs := progs', steps := stepJ :: r.steps }
+        if (s'.thr t).ph = .oerr then
+          { r1 with rets := jObj [("tid", jNat t), ("exc", "AttributeError"), ("spurious", Json.bool true)] :: r1.rets,
+                    spurious := true }
+        else
+        match (s'.thr t).pc with
+        | .ret g cs e how =>
+          let iok := Conc2.intervalOK s' g cs e how
+          let lok := Conc2.literalOK s' g cs e
+          let howJ := match how with
+            | .computed => Json.str "computed"
+            | .hitP d t0 => jObj [("hitP", jNat d), ("t0", jNat t0), ("ep", jNat (s'.ep d))]
+            | .hitF d t0 => jObj [("hitF", jNat d), ("t0", jNat t0), ("ep", jNat (s'.ep d))]
+          { r1 with rets := jObj [("tid", jNat t), ("g", jNat g), ("val", jNat e.val), ("tr", jNat e.tr),
+                                   ("cs", jNat cs), ("now", jNat s'.now), ("how", howJ),
+                                   ("interval", Json.bool iok), ("literal", Json.bool lok)] :: r1.rets,
+                    allInterval := r1.allInterval && iok, allLiteral := r1.allLiteral && lok }
+        | .retErr g _ =>
+          { r1 with rets := jObj [("tid", jNat t), ("g", jNat g), ("exc", "AccessDenied")] :: r1.rets }
+        | _ => r1
+
+def handleConc2 (j : Json) : R Json := do
+  let progs ← listF (asList parseItem2) j "progs"
+  let sched ← listF parseSched j "sched"
+  let r0 : CRun2 := ⟨Conc2.St.init, progs, [], [], true, true, false⟩
+  let r := sched.foldl (concStep2 ccfg2) r0
+  pure (jObj [("model", jObj [("steps", Json.arr r.steps.reverse.toArray), ("rets", Json.arr r.rets.reverse.toArray),
+                              ("lock", jOpt jNat r.s.lock), ("attrF", Json.bool r.s.attrF.isSome),
+                              ("attrP", Json.bool r.s.attrP.isSome)]),
+              ("spec", jObj [("interval", Json.bool r.allInterval), ("literal", Json.bool r.allLiteral),
+                             ("spurious", Json.bool r.spurious)])])
+
 def handle (d : DSt) (j : Json) : R (DSt × Json) := do
   let op ← strF j "op"
   if op == "reset" then
     return (DSt.init, ok (Json.str "reset"))
   if op == "conc" then
     return (d, ← handleConc j)
+  if op == "conc2" then
+    return (d, ← handleConc2 j)
   let o ← parseOp j
   let (y', out) := step cfg d.y o
   let (ss', w', outS) := Spec.stepS cfg.meths cfg.validNames d.ss d.w o
